@@ -281,8 +281,8 @@ pub fn templates() -> Vec<G> {
         G::Ext { take: 2, ok: false, tag: 6 },
         G::Recover(b(a()), Strat::Via(b(G::To(b(G::Any), 901)))),
         G::IgnoreWithCtx(b(G::Any), b(G::JustCfg("a".into()))),
-        G::Rep(Rep { item: b(G::OneOf("ab".into())), sep: None, leading: false, trailing: false, lo: 1, hi: Some(2), sink: Sink::Exactly(2), cfg: false }),
-        G::Rep(Rep { item: b(G::Validate(b(G::OneOf("ab".into())), 7, 1)), sep: Some(b(G::Validate(b(G::Just("c".into())), 8, 1))), leading: true, trailing: true, lo: 0, hi: None, sink: Sink::Bare, cfg: false }),
+        G::Rep(Rep { item: b(G::OneOf("ab".into())), sep: None, leading: false, trailing: false, lo: 1, hi: Some(2), sink: Sink::Exactly(2), cfg: false, ctxb: 0 }),
+        G::Rep(Rep { item: b(G::Validate(b(G::OneOf("ab".into())), 7, 1)), sep: Some(b(G::Validate(b(G::Just("c".into())), 8, 1))), leading: true, trailing: true, lo: 0, hi: None, sink: Sink::Bare, cfg: false, ctxb: 0 }),
     ];
     let rest = any_rest;
     let mut out = vec![];
@@ -301,8 +301,8 @@ pub fn templates() -> Vec<G> {
         out.push(G::Then(b(G::OrNot(b(G::Ignored(b(f()))))), b(rest())));
         if f().must_consume() {
             for sink in [Sink::Bare, Sink::Count, Sink::Unit, Sink::Vec] {
-                out.push(G::Then(b(G::Rep(Rep { item: b(f()), sep: None, leading: false, trailing: false, lo: 0, hi: Some(3), sink: sink.clone(), cfg: false })), b(rest())));
-                out.push(G::Then(b(G::Rep(Rep { item: b(a()), sep: Some(b(f())), leading: false, trailing: true, lo: 0, hi: None, sink, cfg: false })), b(rest())));
+                out.push(G::Then(b(G::Rep(Rep { item: b(f()), sep: None, leading: false, trailing: false, lo: 0, hi: Some(3), sink: sink.clone(), cfg: false, ctxb: 0 })), b(rest())));
+                out.push(G::Then(b(G::Rep(Rep { item: b(a()), sep: Some(b(f())), leading: false, trailing: true, lo: 0, hi: None, sink, cfg: false, ctxb: 0 })), b(rest())));
             }
         }
     }
